@@ -16,7 +16,7 @@
 (***************************************************************************)
 EXTENDS JsonCases, Json, FiniteSets
 
-CONSTANTS Alphabet, MaxLen, Kinds, Ctxs
+CONSTANTS Alphabet, MaxLen, EmitLen, Kinds, Ctxs     \* strings up to MaxLen are checked, those up to EmitLen also emitted
 
 VARIABLE s
 Init == s = <<>>
@@ -39,7 +39,7 @@ Boundary == {<<0,0,0,0,0,0,0,0>>, <<1,0,0,0,0,0,0,0>>, <<255,255,255,127,0,0,0,0
              <<0,0,0,0,0,0,0,128>>, <<255,255,255,255,255,255,255,255>>, <<21,205,91,7,0,0,0,0>>, <<0,0,100,167,179,182,224,13>>}
 DecimalSelf ==
   s # <<>> \/
-  /\ \A n \in 0..3000 : /\ ToNat(DecToBytes(NatToDec(n), 8)) = n
+  /\ \A n \in 0..400 : /\ ToNat(DecToBytes(NatToDec(n), 8)) = n
                         /\ BytesToDec(FromNat8(n)) = NatToDec(n)
   /\ \A n \in {65535, 65536, 16777215, 16777216, 999999999, 1000000000, 2147483647} :
         ToNat(DecToBytes(NatToDec(n), 8)) = n /\ BytesToDec(FromNat8(n)) = NatToDec(n)
@@ -64,8 +64,9 @@ DecimalSelf ==
 \* ---- tour
 Docs(x) == {x, Append(x, 32), <<91>> \o x \o <<93>>, <<91>> \o x \o <<44, 49, 93>>,
             <<123, 34, 97, 34, 58>> \o x \o <<125>>, <<34>> \o x \o <<34>>, <<32>> \o x \o <<10>>}
-EmitDoc == \A d \in Docs(s') : PrintT("@@" \o ToJson([op |-> "doc", s |-> d] @@ [exp |-> Expect([op |-> "doc", s |-> d])]))
+EmitDoc == Len(s') > EmitLen \/ \A d \in Docs(s') : PrintT("@@" \o ToJson([op |-> "doc", s |-> d] @@ [exp |-> Expect([op |-> "doc", s |-> d])]))
 NumCase(k, ctx, lit) == [op |-> "num", k |-> k, ctx |-> ctx, lit |-> lit]
-EmitNum == \A k \in Kinds : \A ctx \in Ctxs : \A lit \in {s', <<34>> \o s' \o <<34>>} :
-             PrintT("@@" \o ToJson(NumCase(k, ctx, lit) @@ [exp |-> Expect(NumCase(k, ctx, lit))]))
+WrapperKinds == {"int32", "int64", "uint32", "uint64", "float", "double", "bytes"}
+EmitNum == Len(s') > EmitLen \/ \A k \in Kinds : \A ctx \in Ctxs : \A lit \in {s', <<34>> \o s' \o <<34>>} :
+             (ctx = "w" /\ k \notin WrapperKinds) \/ PrintT("@@" \o ToJson(NumCase(k, ctx, lit) @@ [exp |-> Expect(NumCase(k, ctx, lit))]))
 =============================================================================
